@@ -28,7 +28,7 @@ REQUIRED = {"select.deselected_not_called": {"quick": 3000, "thorough": 150000},
             "select.container_with_selected_not_skipped": {"quick": 500, "thorough": 25000},
             "local.unselected_run_emits_nothing": {"quick": 3000, "thorough": 150000},
             "nontrivial_cases": {"quick": 300, "thorough": 15000}}
-REQUIRED_SEEN = {"outline_tag_placeholder": ["<t>", "<row.index>", "<examples.index>", "<row.id>"], "dialect": ["v1", "v2", "none"],
+REQUIRED_SEEN = {"second_selection_given_as": ["one_string_of_blank_separated_terms", "list_of_terms"], "tree_shape": ["rule_without_scenarios_in_a_feature_with_scenarios"], "outline_tag_placeholder": ["<t>", "<row.index>", "<examples.index>", "<row.id>"], "dialect": ["v1", "v2", "none"],
                  "tag_name_class": ["contains_operator_word", "contains_hash", "non_ascii_letters"], "outline_name_schema": ["{name}", "{examples.name}"],
                  "process_run_shape": ["toml_tags_plus_command_line", "ini_tags_plus_command_line", "wip_plus_tags"]}
 NSHARDS = {"quick": 16, "thorough": 16}
@@ -121,13 +121,28 @@ def two_selections(lab, mon, rng):
         tries += 1
     ast2, args2 = RB.random_expr(rng)
     tags2 = [a.split("=", 1)[1] for a in args2]
+    for _ in range(4):
+        if len(tags2) > 1 and not any(c in t for t in tags2 for c in " *?[]()"):
+            break
+        if rng.random() < 0.5:
+            break
+        ast2, args2 = RB.random_expr(rng)
+        tags2 = [a.split("=", 1)[1] for a in args2]
+    as_one_string = not any(c in t for t in tags2 for c in " *?[]()") and rng.random() < 0.7
     second = {}
 
     def second_run(st):
         st.calls[:] = []
         st.hooks[:] = []
-        st.config.tags = list(tags2)
-        st.config.setup_tag_expression()
+        if len(tags2) > 1 and as_one_string:
+            # the other documented shape of an old-style expression in user code: ONE string, its and-terms separated by blanks
+            st.config.tags = None
+            st.config.setup_tag_expression(" ".join(tags2))
+            mon.seen("second_selection_given_as", "one_string_of_blank_separated_terms")
+        else:
+            st.config.tags = list(tags2)
+            st.config.setup_tag_expression()
+            mon.seen("second_selection_given_as", "list_of_terms")
         second["verdict"] = st.runner.run()
 
     def pre_run(st):
@@ -243,7 +258,7 @@ def run(spec, mon):
     n = 220 if tier == "quick" else 9000
     for i in range(n):
         gen = {"p_tag": 0.6, "p_param_tag": 0.5, "p_nonpass": 0.15, "p_wip": 0.1, "max_rules": 2, "p_reserved_tag": 0.4,
-               "p_empty_examples": 0.0, "p_stepless": 0.1}     # row-less outlines are out of scope; a step-less scenario
+               "p_empty_examples": 0.0, "p_stepless": 0.1, "p_empty_rule": 0.25}     # row-less outlines are out of scope; a step-less scenario
         # (title and tags only) is a scenario: when de-selected it has to be reported skipped like any other
         if i % 9 == 4:
             # tag names that CONTAIN the operator words of the new dialect (android, order, notify, sandbox) with old-style syntax
@@ -286,6 +301,8 @@ def run(spec, mon):
             case["cfg"]["tags"] = ast
             case["args"] = args + [a for a in case["args"] if not a.startswith("--tags")]
             tries += 1
+        if any(it["kind"] == "rule" and not it["items"] for f in case["program"]["features"] for it in f["items"]):
+            mon.seen("tree_shape", "rule_without_scenarios_in_a_feature_with_scenarios")
         blob = repr(case["program"]["features"])
         for ph in ("<row.index>", "<examples.index>", "<row.id>", "<t>"):
             if ph in blob:
